@@ -691,3 +691,173 @@ Lemma adsafe_f_ref hu : adsafe (f_ref hu).
 Proof. unfold f_ref. adsafe. adlift. Qed.
 Lemma adsafe_f_negated hu : adsafe (f_negated hu).
 Proof. unfold f_negated. adsafe. Qed.
+
+(** [collect_garbage()], [declare], [configure], the harness setters *)
+Lemma adsafe_gc : adsafe (lift (collect_garbage None)).
+Proof.
+  intros a r a' ((HI&Hr&HC&Hv&Hf)&Ht). unfold lift.
+  destruct (collect_garbage None (mgr a)) as [r0 s'] eqn:E. intros [= <- <-].
+  destruct (collect_garbage_total None _ _ r0 s' HI HC E)
+    as (HI'&HC'&_&El&(_&Erc&_&Etp)&_&[(->&_)|(_&_&Hno)]); [|by destruct Hno].
+  assert (Hk' : ∀ h u, handles a !! h = Some u →
+            valid s' u ∧ ∀ ρ, denv s' u ρ = denv (mgr a) u ρ).
+  { intros h u Hu. destruct (Hv h u Hu) as [Hu0 Hus].
+    destruct (gc_preserves_den None _ _ _ s' u HI HC I E Hu0) as (?&_&HD).
+    { right. apply reach_root; [by apply (hl_pos _ h)|by apply elem_of_dom]. }
+    split; [done|]. intros ρ. unfold denv. rewrite El. apply HD. }
+  split; [|done]. split; [|split; [|done]].
+  - split; [|cbn; congruence]. split; [done|]. split; [cbn; congruence|]. split; [done|].
+    split; [|done]. intros h u Hu. by apply (Hk' h).
+  - intros h u Hu. split; [done|]. by apply (Hk' h).
+Qed.
+
+Lemma adsafe_declare vs : adsafe (lift (declare vs)).
+Proof.
+  intros a r a' ((HI&Hr&HC&Hv&Hf)&Ht). unfold lift.
+  destruct (declare vs (mgr a)) as [r0 s'] eqn:E. intros [= <- <-].
+  destruct (declare_total _ _ _ _ HI E) as (->&HI'&(_&Erc&_&Etp)&HC'&Hk).
+  split; [|done]. split; [|split; [|done]].
+  - split; [|cbn; congruence]. split; [done|]. split; [cbn; congruence|].
+    split; [by apply HC'|]. split; [|done]. intros h u Hu. by apply Hk, (Hv h).
+  - intros h u Hu. destruct (Hk u (Hv h u Hu)) as (?&_&?). done.
+Qed.
+
+Lemma adsafe_configure b : adsafe (lift (configure b)).
+Proof.
+  apply adsafe_lift_tables. intros s r s'. unfold configure, bind, get.
+  destruct b as [[|]|]; cbn [modify ret]; intros [= <- <-]; by repeat split.
+Qed.
+Lemma adsafe_set_last_len l : adsafe (lift (modify (fun s => s <| last_len := l |>))).
+Proof. apply adsafe_lift_tables. intros s r s' [= <- <-]. by repeat split. Qed.
+Lemma adsafe_set_trig k : adsafe (lift (modify (fun s => s <| trig := k |>))).
+Proof. apply adsafe_lift_tables. intros s r s' [= <- <-]. by repeat split. Qed.
+
+(** [Function.__del__] *)
+Lemma drop_specD h a r a' : AInvDT a → Autoref.drop h a = (r, a') →
+  (∃ u, handles a !! h = Some u ∧ r = Ok tt ∧ AInvDT a' ∧ extends (mgr a) (mgr a') ∧
+        handles a' = delete h (handles a) ∧ next_hid a' = next_hid a) ∨
+  (handles a !! h = None ∧ r = Err EKey ∧ a' = a).
+Proof.
+  intros ((HI&Hr&HC&Hv&Hf)&Ht). unfold Autoref.drop. cbn [bind get].
+  destruct (handles a !! h) as [u|] eqn:Eu; cycle 1.
+  { intros [= <- <-]. by right. }
+  cbn [bind modify]. unfold lift.
+  change (mgr (a <| handles ::= delete h |>)) with (mgr a).
+  destruct (decref u (mgr a)) as [r0 s'] eqn:E. intros [= <- <-].
+  pose proof (Hv h u Eu) as Hu.
+  destruct (decref_total _ _ _ _ HI E) as (HI'&He&(_&Erc&_&Etp)&Hok&_).
+  destruct (Hok Hu) as [-> HC']. left. exists u.
+  split; [done|]. split; [done|]. split; [|done].
+  split; [|cbn; congruence]. split; [done|]. split; [cbn; congruence|]. split.
+  - apply (Counts_ext _ (ledger_dec (hl (handles a)) (absn u))).
+    + intros n. unfold hledger. cbn. by rewrite (hl_delete _ h u).
+    + apply HC'; [done|]. by apply (hl_pos _ h).
+  - split.
+    + intros h' x. cbn. intros Hx. apply lookup_delete_Some in Hx as [_ Hx].
+      apply (valid_extends (mgr a)); [done|by apply (Hv h')].
+    + intros h' x. cbn. intros Hx. apply lookup_delete_Some in Hx as [_ Hx].
+      by apply (Hf h' x).
+Qed.
+
+(** the alphabet with dynamic reordering possibly enabled: the decorated
+    methods, the operators and the read-only views of [Function], [drop],
+    [collect_garbage], [declare], [configure] with ANY argument, the setters
+    of the threshold and of the forced trigger *)
+Definition a_allowedD (o : aop) : bool :=
+  match o with
+  | ADeclare _ | AVar _ | ATrue | AFalse | AApply _ _ _ _ | AIte _ _ _ | ALet _ _
+  | AQuantify _ _ _ | ACube _ | ASupport _ | AFApply _ _ _ | AEq _ _ | ANe _ _
+  | AChild _ _ | ASucc _ | ALevel _ | AVarOf _ | ARef _ | ANegated _ | AInt _
+  | ADrop _ | AGc | AConfigure _ | ASetLastLen _ | ASetTrig _ => true
+  | _ => false
+  end.
+
+Lemma run_aop_adsafe w o : a_allowedD o = true → (∀ h, o ≠ ADrop h) → adsafe (run_aop w o).
+Proof.
+  intros Ho Hd. destruct o; try discriminate Ho; cbn [run_aop];
+    try (apply adsafe_bind;
+         [first [ apply adsafe_declare | apply adsafe_a_var | apply adsafe_wrap
+                | apply adsafe_a_apply | apply adsafe_a_ite | apply adsafe_a_let
+                | apply adsafe_a_quantify | apply adsafe_a_cube | apply adsafe_a_support
+                | apply adsafe_f_apply | apply adsafe_f_eq | apply adsafe_f_child
+                | apply adsafe_a_succ | apply adsafe_f_level | apply adsafe_f_var
+                | apply adsafe_f_ref | apply adsafe_f_negated | apply adsafe_node_of
+                | apply adsafe_gc | apply adsafe_configure | apply adsafe_set_last_len
+                | apply adsafe_set_trig ]
+         |intros ?; adsafe]).
+  by destruct (Hd hu).
+Qed.
+
+(** MAIN THEOREM, dynamic reordering possibly ENABLED: any allowed call, any
+    arguments, either outcome *)
+Theorem run_aop_AInvD w o a r a' :
+  a_allowedD o = true → AInvDT a → run_aop w o a = (r, a') →
+  AInvDT a' ∧ AKeep o a a' ∧ r ≠ Err ENeedsReordering ∧ r ≠ Err EOracle.
+Proof.
+  intros Ho HA H.
+  assert (Hgen : (∀ h, o ≠ ADrop h) →
+    AInvDT a' ∧ AKeep o a a' ∧ r ≠ Err ENeedsReordering ∧ r ≠ Err EOracle).
+  { intros Hd. destruct (run_aop_adsafe w o Ho Hd a r a' HA H) as ((?&Hk&_)&?&?).
+    split; [done|]. split; [|done]. intros h u Hu. left. by apply Hk. }
+  destruct o; try (apply Hgen; by intros ?). clear Hgen.
+  cbn [run_aop] in H. apply bind_ret_st in H as (r0&H&->).
+  destruct (drop_specD hu a r0 a' HA H) as [(u&Eu&->&HA'&He&Hh&_)|(_&->&->)].
+  - split; [done|]. split; [|done]. intros h x Hx. destruct (decide (h = hu)) as [->|Hne].
+    + right. split; [done|]. rewrite Hh. apply lookup_delete.
+    + left. rewrite Hh, lookup_delete_ne by done. split; [done|].
+      destruct HA as ((HI&_&_&Hv&_)&_). specialize (Hv h x Hx).
+      split; [by apply (valid_extends (mgr a))|]. intros ρ. by apply denv_grow.
+  - split; [done|]. split; [|done]. intros h x Hx. left.
+    by apply (AKeepAll_refl a (proj1 HA)).
+Qed.
+
+(** histories with dynamic reordering: [astep] empties the tape *)
+Theorem astep_AInvD w m o :
+  a_allowedD o = true → AInvDT (aworld_get w m) →
+  AInvDT (aworld_get (fst (astep w m o)) m) ∧
+  AKeep o (aworld_get w m) (aworld_get (fst (astep w m o)) m) ∧
+  snd (astep w m o) ≠ Err ENeedsReordering ∧ snd (astep w m o) ≠ Err EOracle.
+Proof.
+  intros Ha HA. destruct (astep_spec w m o) as (r&a'&E&->&->).
+  set (a := aworld_get w m) in *.
+  destruct (run_aop_AInvD w o a r a' Ha HA E) as ((HA'&Ht')&Hk&?&?).
+  assert (H2 : AInvDT (a' <| mgr := (mgr a') <| tape := [] |> |>) ∧
+               AKeep o a (a' <| mgr := (mgr a') <| tape := [] |> |>)).
+  { split; [|by apply AKeep_tape].
+    destruct (AInvD_same a' ((mgr a') <| tape := [] |>) HA') as [? _];
+      [by repeat split|done|apply HA'|]. by split. }
+  destruct o; try discriminate Ha; by destruct H2.
+Qed.
+
+Definition ahist_okD (ops : list aop) : Prop := Forall (fun o => a_allowedD o = true) ops.
+
+Theorem arun_AInvD ops : ∀ w m,
+  AInvDT (aworld_get w m) → ahist_okD ops → AInvDT (aworld_get (arun w m ops) m).
+Proof.
+  induction ops as [|o ops IH]; intros w m HA Hh; [done|].
+  apply Forall_cons in Hh as [Ha Hh]. cbn [arun fold_left]. apply IH; [|done].
+  by apply astep_AInvD.
+Qed.
+
+(** a live [Function] that is not dropped keeps its node and its function
+    while dynamic reordering sifts in the middle of the operations *)
+Theorem arun_keepsD ops : ∀ w m h u,
+  AInvDT (aworld_get w m) → ahist_okD ops → Forall (fun o => o ≠ ADrop h) ops →
+  handles (aworld_get w m) !! h = Some u →
+  handles (aworld_get (arun w m ops) m) !! h = Some u ∧
+  valid (mgr (aworld_get (arun w m ops) m)) u ∧
+  ∀ ρ, denv (mgr (aworld_get (arun w m ops) m)) u ρ = denv (mgr (aworld_get w m)) u ρ.
+Proof.
+  induction ops as [|o ops IH]; intros w m h u HA Hh Hf Hu.
+  { cbn. split; [done|]. split; [|done]. destruct HA as ((_&_&_&Hv&_)&_). by apply (Hv h). }
+  apply Forall_cons in Hh as [Ha Hh]. apply Forall_cons in Hf as [Hd Hf].
+  destruct (astep_AInvD w m o Ha HA) as (HA1&Hk&_).
+  destruct (Hk h u Hu) as [(Hu1&_&HD1)|[-> _]]; [|done].
+  cbn [arun fold_left].
+  destruct (IH (fst (astep w m o)) m h u HA1 Hh Hf Hu1) as (?&?&HD).
+  split; [done|]. split; [done|]. intros ρ. by rewrite HD.
+Qed.
+
+(** entering the dynamic mode from a state of the static histories *)
+Lemma AInvDT_of_AInvT a : AInvT a → rctx (mgr a) = false → AInvDT a.
+Proof. intros [HA Ht] Hr. split; [by apply AInvD_of_AInv|done]. Qed.
